@@ -1164,8 +1164,9 @@ func (s *session) stateLine() string {
 	return fmt.Sprintf("best=%d %s | %s", best.bid, strings.Join(parts, " "), strings.Join(nms, " "))
 }
 
+// poolLine: which of the transactions this session offered the pool holds (by carried hash) — what the block-level
+// short-cut and the block factory see. The pool's internal counters are C13's business and not compared here.
 func (s *session) poolLine() string {
-	length, _ := s.n.mp.VerifC04Len()
 	var tids []int
 	for h, tid := range s.pooled {
 		if s.n.mp.VerifC04Exist([]byte(h)) != nil {
@@ -1177,7 +1178,10 @@ func (s *session) poolLine() string {
 	for _, t := range tids {
 		ss = append(ss, fmt.Sprint(t))
 	}
-	return fmt.Sprintf("len=%d %s", length, strings.Join(ss, ","))
+	if len(ss) == 0 {
+		return "holds -"
+	}
+	return "holds " + strings.Join(ss, ",")
 }
 
 func (s *session) opState() {
@@ -2116,6 +2120,56 @@ func (s *session) genBigBlock() {
 	s.opBlock(tip, txs, use, shape)
 }
 
+
+// genForkBoundary: transactions bound to the chain id of the OLD fork version wait in the pool (admitted while the next
+// block was still an old-version one) when the node produces the FIRST block of the new version: the pool is only reset
+// once a block of the new version has arrived, so the factory is offered them and executeTx must refuse them.
+func (s *session) genForkBoundary() {
+	if s.forkAt < 2 {
+		return
+	}
+	rng := s.rng
+	best := s.bestBlk()
+	if best.height > s.forkAt-2 {
+		return
+	}
+	for best.height < s.forkAt-2 {
+		best = s.opBlock(best, nil, false, "filler")
+		if best.dead || s.bestBlk() != best {
+			return
+		}
+	}
+	mkT := func(from int, cid []byte, kind string) *mtx {
+		to := (from + 1 + rng.Intn(nAcct-1)) % nAcct
+		b := &types.TxBody{Nonce: s.nonceAt(s.bestBlk(), s.w.addrs[from]) + 1, Account: s.w.addrs[from], Recipient: s.w.addrs[to], Amount: s.amount(),
+			Type: types.TxType_TRANSFER, ChainIdHash: cid}
+		return s.mk(txSpec{body: b, sig: sigSpec{mode: "k", key: from}, hash: hashSpec{mode: "self"}, kind: kind})
+	}
+	a := rng.Intn(nAcct)
+	old1 := mkT(a, s.cidNext(), "valid-transfer-old-version")
+	s.opAdmit(old1)
+	if rng.Chance(1, 2) {
+		s.opAdmit(mkT((a+1)%nAcct, s.cidNext(), "valid-transfer-old-version"))
+	}
+	// the last block of the old version arrives without them
+	var txs []*mtx
+	if rng.Chance(1, 2) {
+		txs = []*mtx{mkT((a+2)%nAcct, s.cidNext(), "valid-transfer")}
+	}
+	b := s.opBlock(best, txs, rng.Chance(1, 2), "last-of-old-version")
+	if b.dead || s.bestBlk() != b {
+		return
+	}
+	if rng.Chance(1, 2) {
+		s.opAdmit(mkT((a+3)%nAcct, s.cidNext(), "valid-transfer")) // bound to the new version
+	}
+	if rng.Chance(1, 3) {
+		// validator path: a block of the new version carrying the old-version transaction the pool holds
+		s.opBlock(b, []*mtx{old1}, true, "first-of-new-version-with-old-tx")
+	}
+	s.opProduce("first-of-new-version")
+}
+
 func (s *session) runSession(nops int) {
 	// hard-fork heights of this session: version 5 from block 1 on, or version 4 up to a small height and 5 from there
 	s.forkAt = 0
@@ -2155,6 +2209,9 @@ func (s *session) runSession(nops int) {
 	// a start-up with a pool dump file costs a second of wall time (loadTxs sleeps): in few sessions only
 	if s.sessNo%s.run.Pick(40, 100) == 3 {
 		s.genLoad()
+	}
+	if s.forkAt >= 2 && s.rng.Chance(1, 3) {
+		s.genForkBoundary()
 	}
 	for i := 0; i < nops && !s.broken; i++ {
 		k := s.rng.Intn(100)
